@@ -295,7 +295,7 @@ func defaultFuncs() map[string]string {
 	return map[string]string{
 		"visited": "visited", "visited_count": "visited_count",
 		"string": "string", "number": "number", "bool": "bool",
-		"p1": "id", "p2": "id", "boom": "boom", "noret": "noret",
+		"p1": "id", "p2": "id", "boom": "boom", "noret": "noret", "bump": "bump",
 		"dice": "dice", "random_range": "random_range",
 		"cstr": "idstr", "cbool": "idbool", "cint": "idint",
 		"floor": "floor", "ceil": "ceil", "round": "round", "inc": "inc", "dec": "dec", "integer": "integer", "decimal": "decimal",
